@@ -60,6 +60,11 @@ def gen_source(rng):
         extra.append(rng.choice([f"pg  'page one{ch}page two';", f"pl  (1 'x{ch} y');", f"pn {{ m 'a {ch}b'; }}"]))
         nontrivial = True
     if rng.random() < 0.3:
+        # lists that mix single values and nested lists (a time table, a mesh block definition): item order is data
+        extra.append(rng.choice(["tbl  ( (0 (1 0 0)) (0.5 (2 0 0)) (1 (4 0.5 0)) );", "blocks  ( hex (0 1 2 3 4 5 6 7) (10 10 1) simpleGrading (1 1 1) );",
+                                 "mix  ( 1 2 (3 4) 5 (6) 7 8 9 10 11 12 13 (14) );", "rows  ( a (1) b (2 (3 c)) );"]))
+        nontrivial = True
+    if rng.random() < 0.3:
         # quoted values made of word characters and signs no delimiter list knows (= + @ % ~ ^ ! ? & | *): written bare
         extra.append(rng.choice(["mode  'mode=fast';", "flags  ( '-DNDEBUG=1' '-O2' '--jobs=4' );", "thr  '=5';", "tok  'dGVzdA==';", "mail  'a@b.c';",
                                  "pct  '50%';", "home  '~user';", "pw  'a^b!c?d';", "amp  'x&y|z';", "star  'a*b+c';"]))
